@@ -38,8 +38,6 @@ theorem toSnake_charset (s : List Char) (h : ∀ c ∈ s, okc c = true) :
 theorem field_legal_char (tr : Tr) (s : List Char) :
     legal .field (toRustFieldName Oas3.Gen.forbidden tr s) = true ∨
     toRustFieldName Oas3.Gen.forbidden tr s = ['_'] ∨
-    toRustFieldName Oas3.Gen.forbidden tr s = "r#crate".toList ∨
-    toRustFieldName Oas3.Gen.forbidden tr s = "r#super".toList ∨
     rawPassthrough s = true :=
   field_legal_aux Oas3.Gen.forbidden keywords_covered forbidden_shape tr s
 
@@ -93,10 +91,12 @@ example : ensureUnique "a".toList ["a".toList, "a2".toList] = some "a3".toList :
 example : ensureUniqueSnake "a".toList ["a".toList, "a_2".toList] = some "a_3".toList := by decide
 
 -- each exceptional class of `field_legal_char` / `type_legal_char` is inhabited (the judge says: illegal)
-example : toRustFieldName F idTr "crate".toList = "r#crate".toList ∧
-    legal .field (toRustFieldName F idTr "crate".toList) = false := by decide
-example : toRustFieldName F idTr "super".toList = "r#super".toList ∧
-    legal .field (toRustFieldName F idTr "super".toList) = false := by decide
+-- (`crate` / `super` were such a class, F09-1, until the `fix:` commit: now `crate_` / `super_`, like `self_`)
+example : toRustFieldName F idTr "crate".toList = "crate_".toList ∧
+    legal .field (toRustFieldName F idTr "crate".toList) = true := by decide
+example : toRustFieldName F idTr "Super".toList = "super_".toList ∧
+    legal .field (toRustFieldName F idTr "Super".toList) = true := by decide
+example : legal .field "r#crate".toList = false ∧ legal .field "r#super".toList = false := by decide
 example : toRustFieldName F idTr "_".toList = ['_'] ∧
     legal .field (toRustFieldName F idTr "_".toList) = false := by decide
 example : rawPassthrough "r#1".toList = true ∧ toRustFieldName F idTr "r#1".toList = "r#1".toList ∧
